@@ -4,6 +4,8 @@ from __future__ import annotations
 import numpy as np
 from hypothesis import strategies as st
 
+from vp.gen.morph import fl
+
 from vp import core
 from vp.gen import morph as gm
 
@@ -45,8 +47,8 @@ def _call(draw, ncells):
          "np_seed": draw(st.integers(0, 2**31 - 1))}
     n = len(pre) * len(post)
     if builder == "sparse":
-        c["p"] = draw(st.one_of(st.sampled_from([0.0, 1.0, 0.5]), st.floats(0.0, 1.0),
-                                st.floats(0.2, 3.0).map(lambda x: min(1.0, x / n))))
+        c["p"] = draw(st.one_of(st.sampled_from([0.0, 1.0, 0.5]), fl(0.0, 1.0),
+                                fl(0.2, 3.0).map(lambda x: min(1.0, x / n))))
     if builder == "matrix":
         mode = draw(st.sampled_from(["free", "free", "single", "all"]))
         if mode == "single":
